@@ -225,7 +225,7 @@ func TestVerifC06A(t *testing.T) {
 	// multisets of <= 2 over the 24 types and of <= 3 over the 12
 	var small []rec
 	for _, t := range types {
-		if (t.Count == 1) == (t.Tag == "x") {
+		if (t.Count == 1) == (t.Tag == "x") && (verifkit.Thorough() || t.Cat != "b") {
 			small = append(small, t)
 		}
 	}
